@@ -100,6 +100,7 @@ fn gen_script(r: &mut Rng, i: u64, exact: bool, stats: &mut BTreeMap<String, u64
     let mut next_tag = 1u32;
     let mut killed = false;
     let mut taken = false;
+    let mut parked: Vec<u32> = Vec::new();
     let settle = |out: &mut Vec<String>, r: &mut Rng| {
         if exact {
             out.push("settle".into());
@@ -140,8 +141,22 @@ fn gen_script(r: &mut Rng, i: u64, exact: bool, stats: &mut BTreeMap<String, u64
                 bump(stats, "multi_segment_calls");
             }
             calls.push(GCall { tag: next_tag, gates_left: if gated { nseg as u32 - 1 } else { 0 }, aborted: false });
+            if !exact && tr != "fin" && r.chance(1, 6) {
+                // the caller stops polling this call for a while (its reply stays in its channel): other calls and
+                // the server must not depend on it; it is resumed after the next quiescent point
+                out.push("yield 1".into());
+                out.push(format!("park {next_tag}"));
+                parked.push(next_tag);
+                bump(stats, "parked_calls");
+            }
             next_tag += 1;
             settle(&mut out, r);
+            if !parked.is_empty() && r.chance(1, 3) {
+                out.push("settle".into());
+                for t in parked.drain(..) {
+                    out.push(format!("unpark {t}"));
+                }
+            }
         } else if choice < 75 && !open.is_empty() {
             let k = *r.pick(&open);
             calls[k].gates_left -= 1;
